@@ -119,8 +119,8 @@ def TInv {w : Width} (th : Thread w) : Prop :=
   | .xchg v :: _ =>
     match th.pc with
     | .xload => True
-    | .xchg => th.rax = v
-    | .xext => w.narrow = true
+    | .xpre | .xchg => readReg w th.rax = readReg w v
+    | .xext => True
     | _ => False
   | .load :: _ =>
     match th.pc with
@@ -253,7 +253,8 @@ theorem stepOK {w : Width} (k : Kind) (c : Word w) (th : Thread w) (h : TInv th)
       all_goals (try solve_case)
     | xchg v =>
       cases hpc : th.pc <;> simp only [stepThread, htodo, hpc]
-      case xchg => cases hn : w.narrow <;> simp only [Bool.false_eq_true, ↓reduceIte] <;> solve_case
+      case xload => cases hk : (k == Kind.flo) <;> simp only [Bool.false_eq_true, ↓reduceIte] <;> solve_case
+      case xchg => cases hn : xchgHasPost w k <;> simp only [Bool.false_eq_true, ↓reduceIte] <;> solve_case
       all_goals (try solve_case)
     | load =>
       cases hpc : th.pc <;> simp only [stepThread, htodo, hpc]
